@@ -90,7 +90,7 @@ def _norm_arm(text):
     t = re.sub(r"\b([dz])([a-z0-9]+_)\(", r"#\2(", t)
     t = t.replace("MAT_BUFD", "MAT_BUF#").replace("MAT_BUFZ", "MAT_BUF#")
     t = re.sub(r"\.([dz])\b", ".#", t)
-    t = t.replace("(double*)", "(#*)").replace("(complex_t*)", "(#*)")
+    t = t.replace("(double*)", "").replace("(complex_t*)", "")
     t = t.replace("sizeof(double)", "sizeof(#)").replace("sizeof(complex_t)", "sizeof(#)")
     return t
 
